@@ -141,6 +141,9 @@ def order_class(v, bps):
     return (below, v in bps)
 
 
+UNREALISED_CAP = 12      # per comparison: after this many disagreeing-but-unrealisable cells, switch to exact-data sampling
+
+
 def axioms_ok(cell, env):
     """Facts about the named uninterpreted functions that a witness must respect: the geodesic distance between two equal
     positions is zero (and only then).  A cell whose witness contradicts them is infeasible, not a counter-example."""
@@ -311,6 +314,7 @@ def compare_position(flag_expr, spec_quantities, allowed_fn, rng, result, label,
                                           witness={X.show(a): str(v) for a, v in env.items()}, foreign=[X.show(q) for q in foreign],
                                           expr=X.show(flag_expr)[:600]))
         return
+    local_unrealised = 0
     for combo in itertools.product(*cands):
         cell = dict(zip(order, combo))
         got = flags_of(X.eval_values(fexpr, cell))
@@ -323,6 +327,19 @@ def compare_position(flag_expr, spec_quantities, allowed_fn, rng, result, label,
             env = realise(cell, rng, breaks=qs)
             if (env is None and all(numeric_evaluable(q) for q in order)) or not axioms_ok(cell, env):
                 result.unrealised += 1
+                local_unrealised += 1
+                if local_unrealised >= UNREALISED_CAP:
+                    try:
+                        hit = sample_disagreement(fexpr, allowed_fn, rng, spec_quantities=spec_quantities, trials=400)
+                    except KeyError:
+                        hit = None
+                    result.cells += 400
+                    if hit is not None:
+                        env2, fa, fb = hit
+                        result.mismatches.append(dict(where=label, cell={'(sampled data)': ''}, got=sorted(map(str, fa)), allowed=sorted(map(str, fb)),
+                                                      witness={X.show(a): str(v) for a, v in env2.items()}, foreign=[X.show(q) for q in foreign],
+                                                      expr=X.show(flag_expr)[:600]))
+                    return
                 continue
             if env is None:
                 # a cell over quantities that cannot be evaluated exactly.  If the *code* compares a quantity the spec does not
@@ -518,6 +535,7 @@ def compare_pair(expr_a, expr_b, relation, rng, result, label, max_cells=20000):
             result.mismatches.append(dict(where=label, cell={'(sampled data)': ''}, got=sorted(map(str, hit[1])), allowed=sorted(map(str, hit[2])),
                                           witness={X.show(a): str(v) for a, v in hit[0].items()}))
         return
+    local_unrealised = 0
     for combo in itertools.product(*cands):
         cell = dict(zip(order, combo))
         fa = flags_of(X.eval_values(ea, cell))
@@ -528,6 +546,21 @@ def compare_pair(expr_a, expr_b, relation, rng, result, label, max_cells=20000):
             env = realise(cell, rng, breaks=qs)
             if (env is None and all(numeric_evaluable(q) for q in order)) or not axioms_ok(cell, env):
                 result.unrealised += 1
+                local_unrealised += 1
+                if local_unrealised >= UNREALISED_CAP:
+                    # many disagreeing cells, none realisable so far (dependent quantities): the witness search costs about a second per
+                    # cell, so the remaining cells are decided by exact-data sampling of both expressions instead
+                    try:
+                        for _ in range(400):
+                            h = sample_disagreement(ea, eb, rng, trials=1)
+                            if h is not None and not relation(h[1], h[2]):
+                                result.mismatches.append(dict(where=label, cell={'(sampled data)': ''}, got=sorted(map(str, h[1])), allowed=sorted(map(str, h[2])),
+                                                              witness={X.show(a): str(v) for a, v in h[0].items()}))
+                                break
+                    except KeyError:
+                        pass
+                    result.cells += 400
+                    return
                 continue
             if env is None and any(not numeric_evaluable(q) and not identity_evaluable(q) and not (q[0] == 'fn' and q[1] == 'geodist')
                                    and not (q[0] == 'abs' and q[1][0] == 'fn' and q[1][1] == 'geodist') for q in order):
